@@ -909,7 +909,20 @@ func rulesC08(c *Ctx) {
 		}
 		rec := false
 		for _, call := range p.callsIn(fn, nm) {
-			if p.recvField(fn, Recv(call), "objects.Queue.parent") && p.isParam(fn, call.Args[0], 0) && p.Parent(p.Parent(call)) == ast.Node(fn.Decl.Body) {
+			if !p.recvField(fn, Recv(call), "objects.Queue.parent") || !p.isParam(fn, call.Args[0], 0) {
+				continue
+			}
+			// unconditional, or only under "there is a parent" (the method is nil-safe, so the guard changes nothing)
+			st := p.StateAt(fn, call)
+			extra := ""
+			for _, a := range p.AllAtoms(st) {
+				_, x, y, isCmp := p.cmpParts(a)
+				if isCmp && (p.isNilExpr(x) || p.isNilExpr(y)) {
+					continue // presence tests: receiver, parent
+				}
+				extra = p.Src(a.E)
+			}
+			if st != nil && extra == "" {
 				rec = true
 			}
 		}
